@@ -213,6 +213,7 @@ func c31(r *core.Run) {
 
 func c33(r *core.Run) {
 	c33RestoreSet(r)
+	c33RestoreAlways(r)
 	w := r.W
 	funcs := w.PkgFuncs("pkg/settlement/traffic")
 	la := core.NewLockAnalysis(w, "pkg/settlement/traffic")
@@ -256,6 +257,7 @@ func c33(r *core.Run) {
 	}
 	r.Floor("C33.Lk1", "writes of the four per-peer totals", total, 5)
 	c33PayAtomic(r, la, mu)
+	c33HandshakeAtomic(r, la, mu)
 	r.Eval(total)
 
 	// Lk2: persist inside the critical section
